@@ -134,7 +134,12 @@ inline stream_buffer::stream_buffer(size_t size, size_t triggerLevel) noexcept
 {
 }
 
-inline stream_buffer::~stream_buffer() noexcept { vStreamBufferDelete(_handle); }
+inline stream_buffer::~stream_buffer() noexcept
+{
+    if (_handle != nullptr) {
+        vStreamBufferDelete(_handle);
+    }
+}
 
 inline auto stream_buffer::write(net::const_buffer data, TickType_t ticks) -> size_t
 {
